@@ -419,3 +419,24 @@ def dump_graph(module, cfg, tag, timeout=600):
     shutil.rmtree(os.path.join(meta, "states"), ignore_errors=True)
     os.remove(dot)
     return nodes, edges, init, r
+
+
+def apalache(module, init, inv, length, tag, timeout=600):
+    """apalache-mc check --init=<init> --inv=<inv> --length=<n>; -> (ok, seconds, tail of the output).
+    ok is True (no error up to the length), False (a counterexample), None (the tool did not decide)."""
+    import shutil
+    import subprocess
+    import time
+    exe = shutil.which("apalache-mc")
+    if exe is None:
+        return None, 0.0, "apalache-mc not on PATH"
+    out_dir = env.outdir(os.path.join("apalache", tag))
+    t0 = time.time()
+    try:
+        p = subprocess.run([exe, "check", f"--init={init}", f"--inv={inv}", f"--length={length}", f"--out-dir={out_dir}",
+                            os.path.join(env.SPEC, module + ".tla")], capture_output=True, text=True, timeout=timeout, cwd=env.SPEC)
+    except subprocess.TimeoutExpired:
+        return None, time.time() - t0, "timeout"
+    txt = p.stdout + p.stderr
+    ok = True if "EXITCODE: OK" in txt else False if "Checker has found an error" in txt else None
+    return ok, time.time() - t0, txt[-600:]
